@@ -606,32 +606,28 @@ class iindex(dict):
         # Iterate through the gathered rowids in reverse precedence order,
         # overwriting the output as we go.
         # This takes some RAM but only O(rows), not subvars etc.
-        dtype = fit_dtype(max(precedence))
+        dtype = fit_dtype(max(precedence), min(min(precedence), 0))
         default = precedence[-1]
         output = numpy.full(numrows, default, dtype=dtype)
-        common_has_been_written = True
         if default != new_common:
             # We filled the output with the lowest-precedence coord.
-            # If that's NOT the common value, then we need to keep track
-            # of which rows have explicitly obtained an uncommon value.
-            common_has_been_written = False
+            # If that's NOT the common value, then we need to know which rows
+            # actually hold the common value in some column: count, per row,
+            # the columns left over after every uncommon cell (listed in
+            # the precedence or not) has been subtracted.
             common_count = numpy.full(numrows, numcols, dtype=fit_dtype(numcols))
-            for rowids in gathered.get(default, []):
-                common_count[rowids] -= 1
+            for rowid_lists in gathered.values():
+                for rowids in rowid_lists:
+                    common_count[rowids] -= 1
         for coord in reversed(precedence[:-1]):
             if coord == new_common:
-                # Rows which already have ALL values at a lower precedence
-                # stay that way; any others get the common value for now,
-                # (but may be overwritten with higher precedence later).
+                # Rows which hold the common value in at least one column
+                # get it for now (but may be overwritten with higher
+                # precedence later); all others stay as they are.
                 output[common_count != 0] = coord
-                common_has_been_written = True
             else:
                 for rowids in gathered.get(coord, []):
                     output[rowids] = coord
-                    if not common_has_been_written:
-                        # This simple flag can save a lot of runtime, only
-                        # counting values "to the right of" the common value.
-                        common_count[rowids] -= 1
 
         # from_array will determine the new best common value for us.
         return self.__class__.from_array(output)
